@@ -1,6 +1,6 @@
 """helpers shared by property drivers (worker side)"""
 import re
-from .core import STEPS, wall_guard, WallTimeout, StepBudgetExceeded, canon_exc, canon_tree, digest
+from .core import STEPS, wall_guard, WallTimeout, StepBudgetExceeded, canon_exc, canon_tree, digest, CanonTooBig, canon_reset
 from .gram import RefGrammar, print_grammar
 from . import ref as R
 
@@ -32,7 +32,11 @@ def call(ctx, op, fn, *a, budget=PARSE_BUDGET, pos=False, meta=False, raw=False,
     try:
         with wall_guard(WALL_S):
             r = STEPS.run(op, budget, fn, *a, **kw)
-        return ['ok', r if raw else canon_tree(r, pos, meta)]
+            # canonicalisation is inside the wall guard too: an explicit-ambiguity tree can be exponentially large
+            canon_reset()
+            return ['ok', r if raw else canon_tree(r, pos, meta)]
+    except CanonTooBig:
+        return ['wall', 'result tree too large to canonicalise']
     except StepBudgetExceeded:
         return ['budget', budget]
     except WallTimeout:
